@@ -1229,7 +1229,7 @@ pub fn gen_sub(prop: &str, tier: &str, seed: u64) -> Out {
             for sub in ["C05", "C06", "C13", "C04", "C12", "C14", "C03", "C08"] {
                 let o2 = gen_sub(sub, tier, seed ^ 0x11);
                 for l in o2.lines {
-                    if l.starts_with("t:") || l.starts_with("tj ") || l.starts_with("spec:") || l.starts_with("select ") || l.starts_with("pexists") || l.starts_with("pmatch") || l.starts_with("cmplaws") || l.starts_with("containslaws") || l.starts_with("keyorder") || l.starts_with("tostrcheck") || l.starts_with("strf64") || l.starts_with("barr") || l.starts_with("bobj") { continue; }
+                    if l.starts_with("t:") || l.starts_with("tj ") || l.starts_with("spec:") || l.starts_with("select ") || l.starts_with("pexists") || l.starts_with("pmatch") || l.starts_with("cmplaws") || l.starts_with("containslaws") || l.starts_with("keyorder") || l.starts_with("tostrcheck") || l.starts_with("strf64") || l.starts_with("barr") || l.starts_with("bobj") || l.starts_with("selreuse") { continue; }
                     if r.chance(if tier == "thorough" { 2 } else { 1 }, 6) {
                         o.push(format!("tj {} {}", r.next() % 1000000, l));
                     }
